@@ -157,8 +157,8 @@ func RunPairs(a *hlib.Args, e *hlib.Emitter, stream uint64) error {
 			r := hlib.NewRng(a.Seed, stream+uint64(i))
 			class := classes[i%len(classes)]
 			g := Generate(r, class, 1700000000+int64(r.Intn(1000000)))
-			locs := [][]byte{locF}
-			if r.Chance(1, 3) {
+			locs := [][]byte{locF, locG}
+			if r.Chance(1, 4) {
 				locs = append(locs, locB)
 			}
 			before := append([]Line{}, g.Lines...)
